@@ -113,6 +113,28 @@ def reply_typed_frames(rng, tier):
     return fr
 
 
+def reply_typed_tcp_with_data(rng):
+    """SYN|ACK and RST segments that carry a payload and acknowledge the flow's cookie, on fresh flows and on flows that
+    hold state (FIN|ACK is not in the property's list: it is answered by FIN|ACK, an exchange that never ends)"""
+    fr, sport = [], 42000
+    half1, half2 = b"GET /index.html HT", b"TP/1.1\r\nHost: a\r\n\r\n"
+    for v6 in (False, True):
+        s, d = gens.addr_pair(v6)
+        for fl in (0x12, 0x04, 0x14, 0x52, 0x92, 0x112):
+            for payload in (gens.http_req(), b"x", b"SSH-2.0-x\r\n"):
+                for established in (False, True):
+                    sport += 1
+                    ck = net.cookie(CFG.key, s, d, sport, 80)
+                    if established:
+                        fr += gens.handshake(CFG.key, s, d, sport, 80, [half1])
+                    else:
+                        fr.append(net.frame_tcp(s, d, sport, 80, 1000, 0, 0x02))
+                    fr.append(net.frame_tcp(s, d, sport, 80, 1001 + (len(half1) if established else 0), (ck + 1) & 0xFFFFFFFF, fl, payload))
+                    if established:
+                        fr.append(net.frame_tcp(s, d, sport, 80, 1001 + len(half1), (ck + 1) & 0xFFFFFFFF, 0x18, half2))
+    return fr
+
+
 def bounce(frame_out):
     """Re-address an emitted frame to the responder: swap MACs, addresses and ports, keep the payload."""
     p = net.parse_frame(frame_out)
@@ -201,6 +223,7 @@ def generate(tier, rng):
         yield sc
     yield Script(CFG, reply_typed_frames(rng, tier), "reply-typed")
     yield Script(CFG, seed_requests(rng), "seed-requests (their replies are bounced)")
+    yield Script(CFG, reply_typed_tcp_with_data(rng), "reply-typed-tcp-with-data")
 
 
 def nontrivial(script):
